@@ -19,10 +19,15 @@ impl Property for C07 {
     fn cases(&self, tier: Tier, rng: &mut Rng) -> (Vec<Case>, bool) {
         let mut reqs = Vec::new();
         let maxlen = if tier == Tier::Quick { 2 } else { 3 };
+        let pool: usize = ask_driver(&["gen.poolsize".to_string()], 1).ok().and_then(|a| a.first().and_then(|s| s.trim().parse().ok())).unwrap_or(45);
         for len in 1..=maxlen {
-            for i in 0..45usize.pow(len as u32) {
+            for i in 0..pool.pow(len as u32) {
                 reqs.push(format!("gen.c07sys {} {}", i, len));
             }
+        }
+        // `<mantissa>e`, sign, non-word token without blanks: three tokens (6 words x 2 signs x 9 followers)
+        for i in 0..108 {
+            reqs.push(format!("gen.c07tight {}", i));
         }
         let n_rand = if tier == Tier::Quick { 6000 } else { 300_000 };
         for k in 0..n_rand {
@@ -49,7 +54,7 @@ impl Property for C07 {
                 impl_lines: lines,
                 drv_lines: drv,
                 human: format!("{:?} vs {:?}", s1, s2),
-                bucket: if req.starts_with("gen.c07sys") { "systematic".into() } else { "random".into() },
+                bucket: if req.starts_with("gen.c07sys") { "systematic".into() } else if req.starts_with("gen.c07tight") { "tight-sign".into() } else { "random".into() },
             });
         }
         // error clauses and strings
@@ -310,6 +315,14 @@ impl Property for C06 {
                 let (l, ln) = lefts[(n + j) % 5];
                 let (rt, rn) = rights[(n / 5 + j) % 5];
                 cases.push(tok_case(&format!("{}{}{}", l, r, rt), Some(format!("{} {} {}", ln, want, rn)), "float-embedded"));
+            }
+        }
+        // a string literal (or another non-word token) directly after `<digits>e` and a sign is still itself (spec-side cases)
+        let reqs: Vec<String> = (0..108).map(|i| format!("gen.c07tight {}", i)).collect();
+        for a in ask_driver(&reqs, 4).unwrap_or_default() {
+            let parts: Vec<&str> = a.splitn(3, ' ').collect();
+            if parts.len() == 3 {
+                cases.push(tok_case(&unx(parts[0]), Some(parts[2].to_string()), "literal-after-sign"));
             }
         }
         // words
